@@ -6,7 +6,7 @@ use ascent::lattice::Product;
 use ascent::{Dual, Lattice};
 use vh_lite::{rows_json, Driven, Value};
 
-use vh_lite::{read_cases, drive, quiet_panics, Out};
+use vh_lite::{read_cases, drive, drive_group, quiet_panics, Out};
 
 mod tc_right__ser;
 mod tc_left__to;
@@ -146,9 +146,24 @@ fn lookup(name: &str) -> fn() -> Box<dyn Driven> {
 fn main() {
    quiet_panics();
    let mut out = Out::open();
-   for case in read_cases() {
+   let cases = read_cases();
+   let mut i = 0;
+   while i < cases.len() {
+      let case = &cases[i];
       let m = format!("{}__{}", case["prog"].as_str().unwrap(), case["var"].as_str().unwrap());
-      drive(&case, &mut out, lookup(&m));
+      if let Some(g) = case["group"].as_i64() {
+         // cases of one group run simultaneously
+         let mut grp = vec![];
+         while i < cases.len() && cases[i]["group"].as_i64() == Some(g) {
+            let m = format!("{}__{}", cases[i]["prog"].as_str().unwrap(), cases[i]["var"].as_str().unwrap());
+            grp.push((cases[i].clone(), lookup(&m)));
+            i += 1;
+         }
+         drive_group(&grp, &mut out);
+      } else {
+         drive(case, &mut out, lookup(&m));
+         i += 1;
+      }
    }
    out.flush();
 }
